@@ -54,8 +54,27 @@ var (
 func Get(name string) (any, bool) {
 	svcMu.RLock()
 	defer svcMu.RUnlock()
+	if disabled[name] {
+		return nil, false
+	}
 	s, ok := services[name]
 	return s, ok
+}
+
+var disabled = map[string]bool{}
+
+// Unregister removes the service registered under name; Restore puts it back (driver commands UNREG / REG).
+func Unregister(name string) {
+	svcMu.Lock()
+	defer svcMu.Unlock()
+	disabled[name] = true
+}
+
+// Restore undoes Unregister.
+func Restore(name string) {
+	svcMu.Lock()
+	defer svcMu.Unlock()
+	delete(disabled, name)
 }
 
 // Register adds (or replaces) a checksum service.
